@@ -7,7 +7,7 @@ BOUNDS = {
     "quick": "(a) evotools/fluenttools.get_well_position on real Labware/Trough objects with the well id a symbolic character vector of every length 0..4 "
              "(characters 32..255), geometries plate 3x12, 9x2, 26x1, 1x1 and trough 9 virtual rows x 2 columns, 1x1; (b) aspirate/dispense with the symbolic id "
              "(labware index wrapped in a symbolic-aware mapping) on plate 3x2 / trough 3x2, both devices; (c) structural agreement of wells / indices / positions / "
-             "make_well_array / make_well_index_dict and both numbering helpers for EVERY well of every plate rows 1..26 x columns {1,2,9,10,12,24,99} and every "
+             "make_well_array / make_well_index_dict and both numbering helpers for EVERY well of every plate rows 1..26 x columns {1,2,9,10,12,24,99,120} and every "
              "trough virtual_rows {1,2,8,26} x columns {1,2,12,24} (concrete execution, not solver-decided)",
     "thorough": "(a) id length 0..5, additional geometries plate 16x24, 8x12, trough 26x24, 8x12; (b) plate 8x12",
 }
@@ -30,7 +30,7 @@ def shards(tier):
             for op in ("aspirate", "dispense"):
                 for L in (2, 3, 4):
                     out.append(dict(part="op", geo=g, dev=dev, op=op, L=L))
-    for cols in (1, 2, 9, 10, 12, 24, 99):
+    for cols in (1, 2, 9, 10, 12, 24, 99, 120):
         out.append(dict(part="tables", kind="plate", cols=cols, concrete=True))
     for cols in (1, 2, 12, 24):
         out.append(dict(part="tables", kind="trough", cols=cols, concrete=True))
